@@ -153,7 +153,7 @@ def format (x : Dec) (fl : FmtFlags) (verb : Char) : List Char :=
     let (sign, buf) : List Char × List Char :=
       match buf with
       | '-' :: rest => (['-'], rest)
-      | '+' :: rest => ((if fl.space then [' '] else ['+']), rest)
+      | '+' :: rest => ((if fl.space && !fl.plus then [' '] else ['+']), rest)
       | _ => ((if fl.plus then ['+'] else if fl.space then [' '] else []), buf)
     let padding : Nat := match fl.width with
       | some w => if w > sign.length + buf.length then w - sign.length - buf.length else 0
